@@ -7,6 +7,7 @@ from ..prng import Rng
 from ..seams import CLOCK, F, T, reset_world, LIB_ERRORS
 from ..core import real
 from ..oracle import ambient_plugins
+from ..oracle import caching_flags_off
 from ..oracle import (ACCEPT, REJECT, EITHER, slack3, slack_tripped_int, validsig,
                       ed_verify, pubkey_of_seed, as_key_arg, PREFIXES, DECORATIONS, SUFFIXES,
                       LOCK_FORMS, LIMITS, in_form, code_of, WRAPS, wrap_lock,
@@ -329,6 +330,10 @@ def model(lock, items, root_pk, t, sf, allowed, reads, thr):
 
 def execute(plan, run):
     reset_world(plan['run_seed'])
+    if plan['idx'] % 7 == 3:
+        # every seventh run: some of the cache-this-value flags are switched off
+        if caching_flags_off(plan['run_seed']):
+            run.probe('caching_flags_off')
     if plan['idx'] % 5 == 2:
         # every fifth run: unrelated do-nothing plugins are registered in this process
         ambient_plugins()
